@@ -24,7 +24,13 @@ Enumerated (see c07_shapes.creation_shapes / history_shapes; all counts asserted
              harness-side (saved part rewritten with bare lxml, deck re-opened) to {idx 2,3,0/order 0,1,2;
              idx 0,1,2/order 2,0,1; idx 0,5,6/order 0,1,2}, one replace_data with 2..6 series (shrink, same,
              grow by 1,2,3) on one chart type per writer family (thorough: every non-pie type).
-             Each path is executed from scratch; the LAST transition of a path is the one checked (its
+             reuse     ONE chart-data object used twice (c07_shapes.reuse_pairs): add_chart(cd); cd grown through its own
+             API — add_category (flat, and a new multi-level top category), add_sub_category, add_series,
+             add_data_point; XY/bubble: every series position (first/middle/last) of 2- and 3-series data
+             grown, a series added — then chart.replace_data(cd) or a second add_chart(cd); one chart type
+             per writer family; the oracle runs after EACH use (both transitions checked), the reference
+             model of the second use is model(after-shape).
+             Each history path is executed from scratch; the LAST transition of a path is the one checked (its
              prefixes are paths of their own), so every distinct transition is checked exactly once.
 
 Oracle per transition (observable behaviour only: public read API, exceptions, `chart.part.blob` parsed
@@ -736,6 +742,103 @@ def exec_case(case, emit, part=None, check_all=False, slides=None):
     return info
 
 
+REUSE_SECOND = ["replace_data", "add_chart"]
+
+
+def _oracle_after_add(chart, tname, spec, emit, desc):
+    """Oracle a+b+c for a chart just created from `spec`; returns the part root."""
+    fam = S.family_of(tname)
+    root = part_root(chart)
+    errs = xsd_errors(root)
+    for cls in sorted({err_class(p, msg) for p, msg in errs}):
+        ex = next((p, msg) for p, msg in sorted(errs) if err_class(p, msg) == cls)
+        emit("C07|xsd|%s|writer=%s" % (cls, fam), "%s: %s: %s" % (desc, ex[0], ex[1]))
+    for aspect, detail in readback(chart, root, S.model(spec)):
+        emit(_readback_sig(aspect, _ctx_add(fam), spec), "%s: %s" % (desc, detail))
+    for tag, detail in idx_order_dups(root):
+        emit("C07|unique|c:%s|%s" % (tag, _ctx_add(fam)), "%s: %s" % (desc, detail))
+    return root
+
+
+def _oracle_after_replace(chart, before, tname, spec, emit, desc):
+    """Oracle a (subset rule) + b + c + d (structure only) for a chart whose data was just replaced by `spec`."""
+    kind = S.kind_of(tname)
+    after = part_root(chart)
+    nser = "new-series=%s" % ("0" if S.series_count(spec) == 0 else ">0")
+    new = xsd_errors(after) - xsd_errors(before)
+    for cls in sorted({err_class(p, msg) for p, msg in new}):
+        ex = next((p, msg) for p, msg in sorted(new) if err_class(p, msg) == cls)
+        emit("C07|xsd-after-replace|%s|%s" % (cls, nser), "%s: new schema error %s: %s" % (desc, ex[0], ex[1]))
+    d = before.find(C + "date1904")
+    date1904 = d is not None and d.get("val", "1") in ("1", "true")
+    for aspect, detail in readback(chart, after, S.model(spec, date1904)):
+        emit(_readback_sig(aspect, _ctx_rep(kind), spec), "%s: %s" % (desc, detail))
+    dup_before = {t for t, _ in idx_order_dups(before)}
+    for tag, detail in idx_order_dups(after):
+        if tag not in dup_before:
+            emit("C07|unique|c:%s|%s" % (tag, _ctx_rep(kind)), "%s: %s" % (desc, detail))
+    n_before = len(list(before.iter(C + "ser")))
+    n_new = S.series_count(spec)
+    trend = "grow" if n_new > n_before else ("shrink" if n_new < n_before else "same")
+    pres, _ = preservation(before, after, n_new)
+    for aspect, detail in pres:
+        emit("C07|preserve|%s|%s|%s" % (aspect, trend, nser), "%s: %s" % (desc, detail))
+    return after
+
+
+def exec_reuse(case, emit, part=None):
+    """ONE chart-data object used twice: add_chart(cd); grow cd through its API; replace_data(cd) or a second
+    add_chart(cd). The full oracle runs after EACH use (two checked transitions per path)."""
+    from pptx import Presentation
+    from pptx.enum.chart import XL_CHART_TYPE
+    tname, before_spec, after_spec, second = case["type"], case["before"], case["after"], case["second"]
+    info = {"dead": False, "states": [], "transitions": 0}
+    prs = Presentation()
+    slide = prs.slides.add_slide(prs.slide_layouts[6])
+    cd = S.build(before_spec)
+    head = "%s: cd = %s" % (tname, _spec_brief(before_spec))
+    ct = getattr(XL_CHART_TYPE, tname)
+
+    def done(op, label):
+        info["transitions"] += 1
+        if part is not None:
+            part.count("transitions")
+            part.count("traces_validated_against_impl")
+            part.outcome(op, label)
+
+    try:
+        chart = slide.shapes.add_chart(ct, 0, 0, 3000000, 2000000, cd).chart
+    except Exception as e:  # noqa: BLE001
+        done("add_chart", "raised:" + type(e).__name__)
+        emit(_raise_sig("add_chart", e, 0, before_spec), "%s; add_chart(cd) raised %r" % (head, e))
+        info["dead"] = True
+        return info
+    done("add_chart", "ok")
+    root = _oracle_after_add(chart, tname, before_spec, emit, "%s; add_chart(cd)" % head)
+    info["states"].append(hashlib.sha1(canon(root)).hexdigest()[:16])
+    S.apply_delta(cd, before_spec, after_spec)
+    step = "%s; add_chart(cd); cd grown by %s to %s; %s" % (head, case["mut"], _spec_brief(after_spec),
+                                                            "chart.replace_data(cd)" if second == "replace_data" else "second add_chart(cd)")
+    try:
+        if second == "replace_data":
+            before_root = part_root(chart)
+            chart.replace_data(cd)
+        else:
+            chart = slide.shapes.add_chart(ct, 0, 0, 3000000, 2000000, cd).chart
+    except Exception as e:  # noqa: BLE001
+        done(second, "raised:" + type(e).__name__)
+        emit(_raise_sig(second, e, S.series_count(before_spec), after_spec), "%s raised %r" % (step, e))
+        info["dead"] = True
+        return info
+    done(second, "ok")
+    if second == "replace_data":
+        root = _oracle_after_replace(chart, before_root, tname, after_spec, emit, step)
+    else:
+        root = _oracle_after_add(chart, tname, after_spec, emit, step)
+    info["states"].append(hashlib.sha1(canon(root)).hexdigest()[:16])
+    return info
+
+
 def _spec_brief(spec):
     s = dict(spec)
     if "tree" in s:
@@ -766,6 +869,10 @@ def _case_of(item):
         t = _TYPES[item[1]]
         H = _HIST[S.kind_of(t)]
         return {"src": "gen", "type": t, "ops": [H[i] for i in item[2]], "plant": True}
+    if mode == "r":
+        t = _TYPES[item[1]]
+        name, b, a = S.reuse_pairs(S.kind_of(t))[item[2]]
+        return {"src": "reuse", "type": t, "mut": name, "before": b, "after": a, "second": REUSE_SECOND[item[3]]}
     if mode == "p":
         t = _TYPES[item[1]]
         a, b = perm_specs(S.kind_of(t), PERM_GROWTH[item[3]])
@@ -782,6 +889,16 @@ def _work(part, chunk):
 
         def emit(sig, what, case=case):
             part.violation(sig, what, {"case": case, "sig": sig})
+        if case["src"] == "reuse":
+            info = exec_reuse(case, emit, part=part)
+            part.count("paths")
+            part.count("reused_chart_data_paths")
+            for st in info["states"]:
+                part.add("states", st)
+            if info["dead"]:
+                part.count("paths_ended_by_exception")
+            part.count("nontrivial_count", info["transitions"])
+            continue
         info = exec_case(case, emit, part=part, slides=slides)
         part.count("paths")
         if info["pruned"]:
@@ -876,7 +993,19 @@ def run(ctx):
                 items.append(("p", ti, pi, gi))
     expected_perm = len(perm_types) * len(PERMS) * len(PERM_GROWTH)
 
-    total = expected_creation + expected_hist + expected_corpus + expected_perm
+    # one chart-data object used twice with growth in between (one chart type per writer family)
+    fam_any = {}
+    for ti, t in enumerate(_TYPES):
+        fam_any.setdefault(S.family_of(t), ti)
+    expected_reuse = 0
+    for ti in sorted(fam_any.values()):
+        n_pairs = len(S.reuse_pairs(S.kind_of(_TYPES[ti])))
+        for pi in range(n_pairs):
+            for si in range(len(REUSE_SECOND)):
+                items.append(("r", ti, pi, si))
+        expected_reuse += n_pairs * len(REUSE_SECOND)
+
+    total = expected_creation + expected_hist + expected_corpus + expected_perm + expected_reuse
     if len(items) != total:
         raise HarnessError("item list %d != closed form %d" % (len(items), total))
     fanout(ctx, _work, ctx.rotate(items))
@@ -889,14 +1018,16 @@ def run(ctx):
     ctx.extra["corpus_history_paths"] = expected_corpus
     ctx.extra["corpus_decks_with_charts"] = len({c[0] for c in _CORPUS})
     ctx.extra["renumbered_series_paths"] = expected_perm
+    ctx.extra["reused_chart_data_paths_enumerated"] = expected_reuse
     ctx.extra["history_length_bound"] = max_len
     ctx.sample({"chart": _TYPES[3], "ops": [_spec_brief(_CREATION[("cat", False)][100])]})
     if ctx.counters.get("paths", 0) != total:
         raise HarnessError("paths executed %d != enumerated %d" % (ctx.counters.get("paths", 0), total))
     unreach = ctx.counters.get("paths_unreachable_prefix_raised", 0) + ctx.counters.get("paths_pruned_after_plotless_error_state", 0)
-    if ctx.counters.get("transitions", 0) + unreach != total:
-        raise HarnessError("checked transitions %d + unreachable %d != enumerated paths %d" % (
-            ctx.counters.get("transitions", 0), unreach, total))
+    # a reused-chart-data path has two checked transitions (one per use of the object)
+    if ctx.counters.get("transitions", 0) + unreach != total + expected_reuse:
+        raise HarnessError("checked transitions %d + unreachable %d != enumerated paths %d + second uses %d" % (
+            ctx.counters.get("transitions", 0), unreach, total, expected_reuse))
 
 
 def replay(data):
@@ -905,5 +1036,8 @@ def replay(data):
     def emit(sig, what):
         if sig == data["sig"]:
             found.append(what)
-    exec_case(data["case"], emit, check_all=True)
+    if data["case"]["src"] == "reuse":
+        exec_reuse(data["case"], emit)
+    else:
+        exec_case(data["case"], emit, check_all=True)
     return found[0] if found else None
